@@ -82,6 +82,22 @@ theorem absL_length_behind (ns : List (Node α))
       Node.abs_wf x (hwf x (List.mem_cons_self ..))]
     simp [Node.readable, hoff x (List.mem_cons_self ..)]
 
+/-- nodes without readable bytes denote pending entries only -/
+theorem absL_behind_pending (ns : List (Node α))
+    (hwf : ∀ nd ∈ ns, nd.buf.length + nd.pend.length = nd.malloc)
+    (hoff : ∀ nd ∈ ns, nd.off = nd.buf.length) : ∀ x ∈ absL ns, x.2 = false := by
+  induction ns with
+  | nil => simp
+  | cons y ys ih =>
+    intro x hx
+    rw [absL_cons, Node.abs_wf y (hwf y (List.mem_cons_self ..))] at hx
+    simp only [Node.readable, hoff y (List.mem_cons_self ..), List.drop_length, List.map_nil,
+      List.nil_append, List.mem_append, List.mem_map] at hx
+    rcases hx with ⟨a, _, rfl⟩ | hx
+    · rfl
+    · exact ih (fun nd hnd => hwf nd (List.mem_cons_of_mem _ hnd))
+        (fun nd hnd => hoff nd (List.mem_cons_of_mem _ hnd)) x hx
+
 /-! ### list facts about inserting in front of the last `n` entries -/
 
 theorem insert_split {β : Type} (l X Y P : List β) (n : Nat) (h : l = X ++ Y) (hn : Y.length = n) :
@@ -101,6 +117,27 @@ theorem filter_insert_pending (l : List (α × Bool)) (k : Nat) (p : List α) :
   rw [List.filter_append, List.filter_append, filter_pending_false]
   conv => rhs; rw [← List.take_append_drop k l, List.filter_append]
   simp only [List.length_append, List.length_map]; omega
+
+theorem takeWhile_append_pending (A B : List (α × Bool)) (hB : ∀ x ∈ B, x.2 = false) :
+    (A ++ B).takeWhile (fun x => x.2) = A.takeWhile (fun x => x.2) := by
+  induction A with
+  | nil =>
+    cases B with
+    | nil => rfl
+    | cons y ys => simp [hB y (List.mem_cons_self ..)]
+  | cons x xs ih =>
+    cases hx : x.2 <;> simp [hx, ih]
+
+/-- inserting pending entries in front of a pending tail keeps the leading flushed entries -/
+theorem takeWhile_insert (l : List (α × Bool)) (k : Nat) (p : List α)
+    (h : ∀ x ∈ l.drop k, x.2 = false) :
+    (l.take k ++ p.map (·, false) ++ l.drop k).takeWhile (fun x => x.2) = l.takeWhile (fun x => x.2) := by
+  rw [List.append_assoc, takeWhile_append_pending]
+  · conv => rhs; rw [← List.take_append_drop k l, takeWhile_append_pending _ _ h]
+  · intro x hx
+    rcases List.mem_append.1 hx with hx | hx
+    · obtain ⟨a, _, rfl⟩ := List.mem_map.1 hx; rfl
+    · exact h x hx
 
 /-! ### the search for the origin node -/
 
@@ -293,9 +330,21 @@ theorem R.insert {b b' : LB α} {q : Q α} (hR : R b q) (hd : q.dead = false) (h
   · intro _ c cp hcc
     rw [hc] at hcc
     have := hR.cache hd c cp hcc
-    simp only [Q.flushedBytes]
-    rw [filter_insert_flushed]
-    exact this
+    simp only [Q.leadBytes]
+    rw [takeWhile_insert]
+    · exact this
+    · have hlen : q.items.length - rn = (absL ((b.nodes.take (b.f + k)).drop b.r) ++
+          origin.readable.map (·, true) ++ (origin.pend.take mn).map (·, false)).length := by
+        rw [hitems]; simp only [List.length_append, List.length_map, List.length_drop, hT]; omega
+      have hY : q.items.drop (q.items.length - rn) =
+          (origin.pend.drop mn).map (·, false) ++ absL (b.nodes.drop (b.f + k + 1)) := by
+        rw [hlen, hitems]
+        exact List.drop_left' rfl
+      rw [hY]
+      intro x hx
+      rcases List.mem_append.1 hx with hx | hx
+      · obtain ⟨a, _, rfl⟩ := List.mem_map.1 hx; rfl
+      · exact absL_behind_pending _ (fun x hx => (hbehind x hx).1) (fun x hx => (hbehind x hx).2) x hx
 
 theorem dataNode_abs (cfg : Cfg) (p : List α) (pcap : Nat) :
     Node.abs ({ (newNode cfg 0 : Node α) with malloc := p.length, pend := p, cap := pcap } : Node α) =
